@@ -836,6 +836,7 @@ def run(ctx):
     res.floor("C13-R8", 7)
     from rules import readers
     n7 = readers.interface_reader_positions(fb, res, "C13-R7")
+    n7 += readers.interface_builder_size(fb, res, "C13-R7")
     res.floor("C13-R7", 3, n7)
     res.floor("C13-R1", 15)
     res.floor("C13-R3", 14, n3)
